@@ -147,18 +147,31 @@ class StdioClient:
             assert self.process and self.process.stdout
 
             buffer = ""
+            byte_buffer = b""
             logger.debug("stdout_reader started")
 
             async for chunk in self.process.stdout:
                 # Handle both bytes and string chunks
                 if isinstance(chunk, bytes):
-                    buffer += chunk.decode("utf-8")
+                    # Split on newlines *before* decoding: a read may end inside a
+                    # multi-byte UTF-8 character, and an undecodable line must be
+                    # dropped alone instead of stopping the reader
+                    byte_buffer += chunk
+                    raw_lines = byte_buffer.split(b"\n")
+                    byte_buffer = raw_lines[-1]
+                    lines = []
+                    for raw_line in raw_lines[:-1]:
+                        try:
+                            lines.append(raw_line.decode("utf-8"))
+                        except UnicodeDecodeError as exc:
+                            logger.error("Invalid UTF-8 on stdout line: %s", exc)
+                    lines.append("")
                 else:
                     buffer += chunk
 
-                # Split on newlines
-                lines = buffer.split("\n")
-                buffer = lines[-1]
+                    # Split on newlines
+                    lines = buffer.split("\n")
+                    buffer = lines[-1]
 
                 for line in lines[:-1]:
                     line = line.strip()
